@@ -467,6 +467,11 @@ fn do_spawn(plan: &Plan, spec: &SpawnSpec, si: usize, pool: &Pool, boot: &[Optio
                             // the search gave up although a later PATH entry holds a startable candidate
                             violate("wrong_candidate", format!("wrong_candidate/gave_up/errno={:?}", code), format!("{}: PATH search failed with {:?} although candidate {:?} can be started (candidates in order: {:?})", ctx, e, String::from_utf8_lossy(img), mo.cands.iter().map(|c| String::from_utf8_lossy(c).into_owned()).collect::<Vec<_>>()));
                         }
+                        if spec.cwd.is_some() && (spec.setuid.is_some() || spec.setgid.is_some()) && matches!(code, Some(libc::EACCES) | Some(libc::ENOENT) | Some(libc::EPERM)) {
+                            // both a working directory and an identity were requested and the combination is
+                            // feasible (the model starts it): the requested settings must all take effect
+                            violate("cwd", format!("cwd/with_identity_change/errno={:?}", code), format!("{}: cwd {:?} and setuid({:?})/setgid({:?}) were requested, each feasible for the caller; the launch failed with {:?}", ctx, spec.cwd.as_ref().map(|c| String::from_utf8_lossy(c).into_owned()), spec.setuid, spec.setgid, e));
+                        }
                         if code == Some(libc::EPERM) && spec.setuid.is_some() && spec.setgid.is_some() {
                             violate("ids", "ids/requested=uid+gid/errno=EPERM".into(), format!("{}: both setuid({:?}) and setgid({:?}) were requested by root; the launch failed with EPERM", ctx, spec.setuid, spec.setgid));
                         }
@@ -1235,6 +1240,8 @@ pub fn generate(prop: &str, rng: &mut Rng, plan: &mut Plan, index: u64) {
                     1 => spec.cwd = Some(b"sub".to_vec()),
                     2 => spec.cwd = Some(b"/work/missing".to_vec()),
                     3 => spec.cwd = Some(b"/".to_vec()),
+                    // a directory only root may enter: the order of chdir and the identity change matters
+                    4 => spec.cwd = Some(b"/work/locked".to_vec()),
                     _ => {}
                 }
                 if rng.chance(1, 2) {
